@@ -483,8 +483,8 @@ func init() {
 			Old: "\t\t\tif fw.err = writeStrings(fw.w, fw.indents); fw.err != nil {\n\t\t\t\treturn\n\t\t\t}\n\t\t}\n\n\t\tif _, fw.err = fw.w.WriteString(s[:i+1])",
 			New: "\t\t\tfw.err = writeStrings(fw.w, fw.indents)\n\t\t}\n\n\t\tif _, fw.err = fw.w.WriteString(s[:i+1])", Expect: "LATCH"},
 		Control{Name: "writeStrings-keeps-writing-after-error", Props: []string{"C20"}, File: "format/format.go",
-			Old: "\t\tif _, err := w.WriteString(s); err != nil {\n\t\t\treturn err\n\t\t}\n\t}\n\treturn nil",
-			New: "\t\tif _, err := w.WriteString(s); err != nil {\n\t\t\tfirst = err\n\t\t}\n\t}\n\treturn first",
+			Old:   "\t\tif _, err := w.WriteString(s); err != nil {\n\t\t\treturn err\n\t\t}\n\t}\n\treturn nil",
+			New:   "\t\tif _, err := w.WriteString(s); err != nil {\n\t\t\tfirst = err\n\t\t}\n\t}\n\treturn first",
 			Edits: [][2]string{{"func writeStrings(w io.StringWriter, slice []string) error {\n", "func writeStrings(w io.StringWriter, slice []string) error {\n\tvar first error\n"}}, Expect: "WRITE-GUARD/format.writeStrings"},
 		Control{Name: "header-written-to-raw-writer", Props: []string{"C20"}, File: "format/format.go",
 			Old: "\tfw := newFormatWriter(w)\n", New: "\tfw := newFormatWriter(w)\n\tw.Write(nil)\n", Expect: "W"},
